@@ -520,23 +520,103 @@ class Fn:
         res = []
         seen = set()
 
-        def add(cond, pol, b):
+        def add(cond, pol, b, tag=""):
             a, p = normalize_cond(cond, pol)
             # clang reports the *whole* condition for the last operand of a chain of logical
             # operators: (X && Y) true => X true and Y true; (X || Y) false => X false and Y false.
             if isinstance(a, dict) and a.get("k") == "bin" and ((a.get("op") == "&&" and p) or (a.get("op") == "||" and not p)):
-                add(a.get("l"), p, b)
-                add(a.get("r"), p, b)
+                add(a.get("l"), p, b, tag)
+                add(a.get("r"), p, b, tag)
                 return
-            key = (a.get("sid") if isinstance(a, dict) else id(a), p)
+            key = (a.get("sid") if isinstance(a, dict) else id(a), p, tag)
             if key in seen:
                 return
             seen.add(key)
             res.append((a, p, b))
+            # `X == 0`, `X != nullptr`, `flag == true`, ... also say something about the truth
+            # value of X itself: add that reading next to the comparison (rules written for
+            # `if (X)` / `if (!X)` then recognise the spelled-out forms as well)
+            if isinstance(a, dict) and a.get("k") == "bin" and a.get("op") in ("==", "!="):
+                for x, o in ((a.get("l"), a.get("r")), (a.get("r"), a.get("l"))):
+                    oc = strip_casts(o)
+                    if not isinstance(oc, dict) or oc.get("k") not in ("int", "bool", "null"):
+                        continue
+                    v = const_val(oc)
+                    if oc.get("k") == "null":
+                        v = 0
+                    if v in (0, False):
+                        add(x, p if a["op"] == "!=" else (not p), b, tag + "t")
+                    elif v is True or (v == 1 and (strip_casts(x) or {}).get("ctype", (strip_casts(x) or {}).get("type", "")) in ("bool", "const bool")):
+                        add(x, p if a["op"] == "==" else (not p), b, tag + "t")
+                    break
 
         for cond, pol, b in self.guards(pos, extra_edges):
             add(cond, pol, b)
+            x = self.expand_expr(cond)
+            if x is not cond:
+                add(x, pol, b, "x")      # the same guard with named temporaries written out
         return res
+
+    # ---- copy propagation of named temporaries ------------------------------------------------------
+    def _stable_locals(self):
+        """vid -> initialiser for locals that are defined exactly once (their declaration), are not
+        references and are never assigned, incremented or compound-assigned afterwards."""
+        if getattr(self, "_stable", None) is None:
+            decl, writes = {}, defaultdict(int)
+            for prm in self.params:
+                if prm.get("vid") is not None:
+                    writes[prm["vid"]] += 1
+            for pos, ev in self.events():
+                k = ev.get("k")
+                if k == "decl" and ev.get("vid") is not None:
+                    writes[ev["vid"]] += 1
+                    if ev.get("init") is not None and not ev.get("isref") and "&" not in (ev.get("type") or ""):
+                        decl[ev["vid"]] = ev["init"]
+                elif k == "bin" and ev.get("op", "").endswith("=") and ev.get("op") not in ("==", "!=", "<=", ">="):
+                    l = strip_casts(ev.get("l"))
+                    if isinstance(l, dict) and l.get("k") == "var":
+                        writes[l.get("vid")] += 1
+                elif k == "un" and ev.get("op") in ("++", "--"):
+                    x = strip_casts(ev.get("e"))
+                    if isinstance(x, dict) and x.get("k") == "var":
+                        writes[x.get("vid")] += 1
+            addr = set()
+            for pos, nd in self.all_nodes():
+                if nd.get("k") == "un" and nd.get("op") == "&":
+                    x = strip_casts(nd.get("e"))
+                    if isinstance(x, dict) and x.get("k") == "var":
+                        addr.add(x.get("vid"))
+            self._stable = {v: i for v, i in decl.items() if writes[v] == 1 and v not in addr}
+            self._written = {v for v, n in writes.items() if n > 1} | addr
+        return self._stable
+
+    def expand_expr(self, e, depth=4):
+        """e with every use of a stable local replaced by its initialiser (transitively): the guard
+        `if (writerPresent)` after `const bool writerPresent = (before & kBit) != 0;` and
+        `const int before = word.fetch_add(1);` reads `(word.fetch_add(1) & kBit) != 0`. A local is
+        only substituted if every variable its initialiser mentions is itself never reassigned, so
+        the written-out expression denotes the same value. Returns e itself if nothing changed."""
+        st = self._stable_locals()
+        if not st or depth <= 0 or not isinstance(e, (dict, list)):
+            return e
+        if isinstance(e, list):
+            xs = [self.expand_expr(x, depth) for x in e]
+            return xs if any(a is not b for a, b in zip(xs, e)) else e
+        if e.get("k") == "var" and e.get("vid") in st and e.get("vk") in ("local", None):
+            init = st[e["vid"]]
+            leaves = [x for x in subexprs(init) if isinstance(x, dict) and x.get("k") == "var" and x.get("vk") in ("local", "param")]
+            if all(x.get("vid") not in self._written for x in leaves):
+                return self.expand_expr(init, depth - 1)
+            return e
+        out = None
+        for key in ("l", "r", "e", "c", "t", "f", "obj", "base", "idx", "args", "kids"):
+            if key in e and isinstance(e[key], (dict, list)):
+                x = self.expand_expr(e[key], depth)
+                if x is not e[key]:
+                    if out is None:
+                        out = dict(e)
+                    out[key] = x
+        return out if out is not None else e
 
     # ---- path queries ----------------------------------------------------------------------
     def path_to_exit_avoiding(self, start, stop, include_noreturn=False, extra_edges=None, targets=None, removed_edges=()):
@@ -619,8 +699,27 @@ class Fn:
         return " -> ".join(out)
 
 
+def _is_zero(e):
+    e = strip_casts(e)
+    return isinstance(e, dict) and e.get("k") in ("int", "bool", "null") and const_val(e) in (0, False)
+
+
+def _boolish(e):
+    """an expression whose truth value is what a `!= 0` around it tests: a bit test, a logical
+    expression, a comparison, or something of type bool"""
+    e = strip_casts(e)
+    if not isinstance(e, dict):
+        return False
+    if e.get("k") == "bin" and e.get("op") in ("&", "&&", "||", "<", "<=", ">", ">=", "==", "!="):
+        return True
+    if e.get("k") == "un" and e.get("op") == "!":
+        return True
+    return (e.get("ctype") or e.get("type") or "") in ("bool", "_Bool", "const bool")
+
+
 def normalize_cond(cond, pol):
-    """Strip !, __builtin_expect, casts, implicit bool; flips polarity through negations."""
+    """Strip !, __builtin_expect, casts, implicit bool, `(bit-test) != 0` / `== 0`; flips polarity
+    through negations."""
     e = cond
     while isinstance(e, dict):
         k = e.get("k")
@@ -634,6 +733,14 @@ def normalize_cond(cond, pol):
         if k == "call" and e.get("name") == "__builtin_expect" and e.get("args"):
             e = e["args"][0]
             continue
+        if k == "bin" and e.get("op") in ("!=", "=="):
+            l, r = e.get("l"), e.get("r")
+            x = l if _is_zero(r) else (r if _is_zero(l) else None)
+            if x is not None and _boolish(x):
+                if e["op"] == "==":
+                    pol = not pol
+                e = x
+                continue
         break
     return e, pol
 
